@@ -504,6 +504,38 @@ theorem Terminated.tail {l : Bytes} {ls : List Bytes} (h : Terminated (l :: ls))
 theorem Terminated.head {l y : Bytes} {ys : List Bytes} (h : Terminated (l :: y :: ys)) : l.getLast? = some 10 :=
   h l (by rw [List.dropLast_cons_cons]; exact List.mem_cons_self ..)
 
+theorem terminated_single (l : Bytes) : Terminated [l] := by
+  intro x hx; simp at hx
+
+theorem terminated_cons_cons (l y : Bytes) (ys : List Bytes) :
+    Terminated (l :: y :: ys) ↔ l.getLast? = some 10 ∧ Terminated (y :: ys) := by
+  simp [Terminated, List.dropLast_cons_cons]
+
+/-- binary file iteration (`bLines`) yields lines that all end with LF, except possibly the last -/
+theorem bLines_terminated (file : Bytes) : Terminated (bLines file) := by
+  induction file with
+  | nil => intro x hx; simp [bLines] at hx
+  | cons c cs ih =>
+    by_cases hc : c = 10
+    · subst hc
+      simp only [bLines, if_true]
+      cases hb : bLines cs with
+      | nil => exact terminated_single _
+      | cons y ys => rw [hb] at ih; exact (terminated_cons_cons _ _ _).mpr ⟨rfl, ih⟩
+    · simp only [bLines, hc, if_false]
+      cases hb : bLines cs with
+      | nil => exact terminated_single _
+      | cons l ls =>
+        rw [hb] at ih
+        cases ls with
+        | nil => exact terminated_single _
+        | cons y ys =>
+          obtain ⟨h1, h2⟩ := (terminated_cons_cons _ _ _).mp ih
+          refine (terminated_cons_cons _ _ _).mpr ⟨?_, h2⟩
+          cases l with
+          | nil => simp at h1
+          | cons d ds => rw [List.getLast?_cons_cons]; exact h1
+
 theorem preHeaderOk_of_terminated (lines : List Bytes) (h : Terminated lines) : preHeaderOk lines = true := by
   cases lines with
   | nil => rfl
